@@ -159,6 +159,45 @@ def literal_ops(lit):
         yield "bip85 %s %s %d 0 -" % (m, app, lit)
 
 
+def extra_checks(rng, tier, g, info):
+    """long-lived BIP85 object: S distinct indexes are used under one application node (S above every small literal of
+    the source, common.soak_size) — through the node API on the wallet's own nodes and through the BIP85 calls
+    themselves — then early / middle / late requests are repeated on the SAME object and compared with the
+    independent derivation"""
+    S = common.soak_size(PID, tier)
+    k = rng.randrange(1, N)
+    chain = bytes(rng.getrandbits(8) for _ in range(32))
+    xprv = common.xkey_string(0x0488ADE4, 0, bytes(4), 0, chain, b"\x00" + k.to_bytes(32, "big"))
+    w = impl.make_wallet("xkey:" + sx(xprv))
+    b = w.bip85
+    node = w.master.derive_path([83696968 + H, 2 + H])
+    for i in range(S):
+        node.ckd(H + i)
+    small = 150 if tier == "quick" else 3000
+    for i in range(small):
+        b.hex(32, i)
+    probes = sorted(set([0, 1, 2, 7, small - 1, S // 2, S - 1, S, S + 1] + [rng.randrange(S) for _ in range(6)]))
+    n = 0
+    for i in probes:
+        for app, param, call in (("wif", 0, lambda: b.wif(i)), ("hex", 32, lambda: b.hex(32, i)),
+                                 ("xprv", 0, lambda: b.xprv(i))):
+            if app != "wif" and i >= small + 2:
+                continue
+            n += 1
+            want = indep(app, k, chain, param, i)
+            try:
+                got = call()
+            except Exception as e:
+                got = "raised %r" % e
+            if got != want:
+                yield ("# soak: one BIP85 object (master %s), %d indexes used under m/83696968'/2', %d under .../128169'/32', "
+                       "then %s(index %d)" % (xprv, S, small, app, i),
+                       "BIP85 %s on a heavily used object differs from the specified derivation: %s" % (app, str(got)[:60]))
+                return
+    info["soak_children_per_node"] = S
+    info["soak_requests_checked"] = n
+
+
 def cases(rng, tier):
     from . import extra
     yield from _cases_core(rng, tier)
